@@ -15,7 +15,10 @@ def cm(x):
 def soil_doc(sc):
     """initialise the model of scenario sc and describe the profile it runs on"""
     import scenario as S
-    m = S.make_model(sc)
+    if sc.get("_prelude"):          # the Soil object (and the others) served another model before - e.g. one with a shallower-rooting crop
+        m, _ = S.make_model_after_prelude(sc, init_only=True)
+    else:
+        m = S.make_model(sc)
     m._initialize()
     prof = m._param_struct.Soil.Profile
     soil = m._param_struct.Soil
